@@ -50,3 +50,168 @@ def call_check():
             print('REPLAY: VIOLATION-CONFIRMED')
             return
     print('REPLAY: not reproduced')
+
+
+# ---- operator methods and protocol fall-backs (contracts/C20_ops.py) ---------------------------------------------------
+
+def _expect_raise(what, f, exc=TypeError):
+    try:
+        r = f()
+    except exc:
+        return True
+    except Exception as e:
+        print('%s raised %s instead of %s' % (what, type(e).__name__, exc.__name__))
+        return False
+    print('%s returned %r (type %s) instead of raising %s' % (what, r, type(r).__name__, exc.__name__))
+    return False
+
+
+def fallback_check():
+    """Unregistered numpy functions / ufunc methods on a Quantity must raise; registered ones keep inputs and kwargs."""
+    import numpy
+    from nutils import SI, function
+    q = SI.Length.wrap(numpy.array([1., 2., 3.]))
+    t = SI.Time.wrap(numpy.array([1., 2., 4.]))
+    ok = True
+    ok &= _expect_raise('numpy.sin(q) [unregistered ufunc]', lambda: numpy.sin(q))
+    ok &= _expect_raise('numpy.exp(q) [unregistered ufunc]', lambda: numpy.exp(q))
+    ok &= _expect_raise('numpy.add.reduce(q) [ufunc method other than __call__]', lambda: numpy.add.reduce(q))
+    ok &= _expect_raise('numpy.multiply.outer(q, q)', lambda: numpy.multiply.outer(q, q))
+    ok &= _expect_raise('numpy.cumsum(q) [unregistered array function]', lambda: numpy.cumsum(q))
+    ok &= _expect_raise('numpy.sort(q) [unregistered array function]', lambda: numpy.sort(q))
+    try:
+        r = numpy.add(q, q)
+        if type(r) != SI.Length or r.unwrap().tolist() != [2., 4., 6.]:
+            print('numpy.add(q, q) =', r)
+            ok = False
+        r = numpy.multiply(q, t)
+        if type(r) != SI.Length * SI.Time:
+            print('numpy.multiply(q, t) has type', type(r).__name__)
+            ok = False
+        m = SI.Length.wrap(numpy.arange(6.).reshape(2, 3))
+        r = numpy.sum(m, axis=0)
+        if type(r) != SI.Length or r.unwrap().tolist() != [3., 5., 7.]:
+            print('numpy.sum(m, axis=0) =', r, '(keyword arguments lost?)')
+            ok = False
+        r = numpy.add(q, q, where=numpy.array([True, False, True]), out=numpy.zeros(3))
+        if type(r) != SI.Length or r.unwrap().tolist() != [2., 0., 6.]:
+            print('numpy.add(q, q, where=..., out=...) =', r, '(keyword arguments lost?)')
+            ok = False
+        from nutils import mesh
+        dom, geom = mesh.unitsquare(2, 'square')
+        r = function.mean(SI.Length.wrap(geom[0]))  # @nutils_dispatch but unregistered: the original runs on the still-wrapped quantity
+        if type(r) != SI.Length:
+            print('function.mean(length) has type', type(r).__name__)
+            ok = False
+        r = function.grad(SI.Mass.wrap(geom[0]), SI.Length.wrap(geom))
+        if type(r) != SI.Mass / SI.Length:
+            print('function.grad(mass, length) has type', type(r).__name__)
+            ok = False
+    except Exception as e:
+        print('a registered function failed: %s: %s' % (type(e).__name__, e))
+        ok = False
+    print('REPLAY: not reproduced' if ok else 'REPLAY: VIOLATION-CONFIRMED a numpy/nutils function on a Quantity is not routed through the registered dimension rule')
+
+
+def operators_check():
+    """Every operator of Quantity follows the rule of the same operator; DimensionError only becomes TypeError."""
+    import operator
+    from nutils import SI
+    L, T = SI.Length.wrap(6.), SI.Time.wrap(2.)
+    ok = True
+
+    def same(what, got, typ, val):
+        nonlocal ok
+        if type(got) != typ or (got.unwrap() if isinstance(got, SI.Quantity) else got) != val:
+            print('%s = %r of type %s, expected %r of type %s' % (what, got, type(got).__name__, val, typ.__name__))
+            ok = False
+    try:
+        same('L+L', L + L, SI.Length, 12.)
+        same('L-L/3', L - L / 3, SI.Length, 4.)
+        same('L*T', L * T, SI.Length * SI.Time, 12.)
+        same('2*L', 2 * L, SI.Length, 12.)
+        same('L*2', L * 2, SI.Length, 12.)
+        same('L/T', L / T, SI.Length / SI.Time, 3.)
+        same('12/L', 12 / L, SI.Length**-1, 2.)
+        same('L**2', L**2, SI.Length**2, 36.)
+        same('L%T-like: L%L', L % SI.Length.wrap(4.), SI.Length, 2.)
+        same('-L', -L, SI.Length, -6.)
+        same('+L', +L, SI.Length, 6.)
+        same('abs(-L)', abs(-L), SI.Length, 6.)
+        same('L<2L', L < 2 * L, bool, True)
+        same('L<=L', L <= L, bool, True)
+        same('L>2L', L > 2 * L, bool, False)
+        same('L>=2L', L >= 2 * L, bool, False)
+        same('L>=L', L >= L, bool, True)
+        same('L>L', L > L, bool, False)
+        same('L<L', L < L, bool, False)
+        same('L==L', L == L, bool, True)
+        same('L!=L', L != L, bool, False)
+        import numpy
+        A = SI.Length.wrap(numpy.array([1., 2.]))
+        same('A@A', A @ A, SI.Length**2, 5.)
+        same('A[1]', A[1], SI.Length, 2.)
+        B = SI.Length.wrap(numpy.array([1., 2.]))
+        B[0] = SI.Length.wrap(5.)
+        same('B[0] after B[0]=5m', B[0], SI.Length, 5.)
+        same('[1,2]@A', numpy.array([1., 2.]) @ A if False else A.__rmatmul__(numpy.array([1., 2.])), SI.Length, 5.)
+        same('L.__rsub__(4L)', L.__rsub__(4 * L), SI.Length, 18.)
+        same('L.__radd__(L)', L.__radd__(L), SI.Length, 12.)
+        same('L.__rmod__(10m)', SI.Length.wrap(4.).__rmod__(SI.Length.wrap(10.)), SI.Length, 2.)
+        same('T.__rtruediv__(L)', T.__rtruediv__(L), SI.Length / SI.Time, 3.)
+    except Exception as e:
+        print('an operator failed: %s: %s' % (type(e).__name__, e))
+        ok = False
+    ok &= _expect_raise('L+T', lambda: L + T)
+    ok &= _expect_raise('L-T', lambda: L - T)
+    ok &= _expect_raise('L<T', lambda: L < T)
+    ok &= _expect_raise('L+1', lambda: L + 1)
+    ok &= _expect_raise('1-L', lambda: 1 - L)
+    ok &= _expect_raise('L%T', lambda: L % T)
+
+    def boom(*a):
+        raise ValueError('not a dimension error')
+    ok &= _expect_raise('_try_or_noimp with a ValueError', lambda: SI._try_or_noimp(L, boom, T), ValueError)
+    if SI._reverse(1, lambda a, b: (a, b), 2) != (2, 1):
+        print('_reverse(self, func, arg) does not call func(arg, self)')
+        ok = False
+    print('REPLAY: not reproduced' if ok else 'REPLAY: VIOLATION-CONFIRMED an operator of Quantity does not follow the dimension rule of that operator')
+
+
+def simple_check():
+    import numpy
+    from nutils import SI
+    ok = True
+    q = SI.Length.wrap(numpy.array([3., 4.]))
+    if len(q) != 2:
+        print('len(q) =', len(q))
+        ok = False
+    items = list(q)
+    if [type(x) for x in items] != [SI.Length, SI.Length] or [x.unwrap() for x in items] != [3., 4.]:
+        print('list(q) =', items)
+        ok = False
+    if bool(SI.Length.wrap(0.)) or not bool(SI.Length.wrap(2.)):
+        print('bool(0m), bool(2m) =', bool(SI.Length.wrap(0.)), bool(SI.Length.wrap(2.)))
+        ok = False
+    print('REPLAY: not reproduced' if ok else 'REPLAY: VIOLATION-CONFIRMED __bool__/__len__/__iter__ do not act on the wrapped value in the own dimension')
+
+
+def truediv_check():
+    from nutils import SI
+    ok = True
+    L = SI.Length.wrap(6.)
+    try:
+        r = L / 'cm'
+        if type(r) != float or abs(r - 600.) > 1e-9:
+            print("6m / 'cm' =", repr(r))
+            ok = False
+        r = L / SI.Time.wrap(2.)
+        if type(r) != SI.Length / SI.Time or r.unwrap() != 3.:
+            print('6m / 2s =', repr(r))
+            ok = False
+    except Exception as e:
+        print('division failed: %s: %s' % (type(e).__name__, e))
+        ok = False
+    ok &= _expect_raise("6m / 's'", lambda: L / 's')
+    ok &= _expect_raise("6m / '5' (a bare number is not a length)", lambda: L / '5')
+    print('REPLAY: not reproduced' if ok else "REPLAY: VIOLATION-CONFIRMED q / 'unit' does not give the value in that unit of the quantity's own dimension")
